@@ -20,32 +20,60 @@ from typing import List, Optional, Set
 
 from sa.cfg import CFG, guards
 from sa.model import AnalysisError, Function, Repo, calls_in, const_str, dotted, full, norm, own_nodes, parent
+from sa.match import Locals, match, names_in
 from sa.report import Report
 
 SP = "core.parsing.schema_parser"
+PLACEHOLDER_FLAGS = {"_from_unresolved_ref", "_max_depth_exceeded_marker"}
+
+
+def _conj(t: ast.AST) -> List[ast.AST]:
+    return list(t.values) if isinstance(t, ast.BoolOp) and isinstance(t.op, ast.And) else [t]
+
+
+def property_loop(fn: Function, L: Locals) -> List[ast.For]:
+    """`for <key>, <schema> in <... X.properties.items() ...>` (the iterable may go through sorted(...) / a temporary)."""
+    return [n for n in own_nodes(fn.node) if isinstance(n, ast.For) and isinstance(n.target, ast.Tuple) and len(n.target.elts) == 2
+            and any(isinstance(x, ast.Attribute) and x.attr == "properties" for x in ast.walk(L.inline(n.iter)))]
 
 
 def run(repo: Repo, rep: Report, tier: str) -> None:
     ps = repo.func(f"{SP}:_parse_schema")
     cfg = CFG(ps.node)
     dom = cfg.dominators()
+    PL = Locals(ps.node)
     # ---------------------------------------------------------------- R2.1
-    ctor = [n for n in cfg.nodes if n.kind == "stmt" and isinstance(n.ast, ast.Assign) and norm(n.ast.targets[0]) == "schema_ir"
-            and isinstance(n.ast.value, ast.Call) and dotted(n.ast.value.func) == "IRSchema" and not n.copy]
-    rep.require(len(ctor) == 1, f"R2.1: expected one `schema_ir = IRSchema(...)` in _parse_schema, found {len(ctor)}")
+    ctor = [n for n in cfg.nodes if n.kind == "stmt" and isinstance(n.ast, (ast.Assign, ast.AnnAssign)) and not n.copy
+            and isinstance(n.ast.value, ast.Call) and (dotted(n.ast.value.func) or "").split(".")[-1] == "IRSchema"
+            and isinstance(n.ast.targets[0] if isinstance(n.ast, ast.Assign) else n.ast.target, ast.Name)
+            and any(k.arg == "properties" for k in n.ast.value.keywords)]
+    rep.require(len(ctor) == 1, f"R2.1: expected one `<ir> = IRSchema(..., properties=...)` in _parse_schema, found {len(ctor)}")
+    ir_var = None
     if ctor:
         c0 = ctor[0]
+        tgt = c0.ast.targets[0] if isinstance(c0.ast, ast.Assign) else c0.ast.target
+        ir_var = tgt.id
         rets = [n for n in cfg.nodes if isinstance(n.ast, ast.Return) and not n.copy and c0.id in dom[n.id]]
         rep.count("R2.1:returns_after_construction", len(rets))
-        rep.require(len(rets) >= 1, "R2.1: no return after the construction of schema_ir")
+        rep.require(len(rets) >= 1, "R2.1: no return after the construction of the schema IR")
         for r in rets:
             v = norm(r.ast.value) if r.ast.value is not None else "None"
-            sub = f"{ps.module.relpath}:_parse_schema `return {v}` after construction"
-            if v == "schema_ir":
+            is_ir = isinstance(r.ast.value, ast.Name) and PL.root(r.ast.value.id) == ir_var
+            # what is returned instead, described without local names: the attribute chain / callee of its definition
+            origin = "None"
+            if r.ast.value is not None and not is_ir:
+                d = PL.inline(r.ast.value, stop=tuple(PL.params) + (ir_var,))
+                origin = ".".join(sorted({x.attr for x in ast.walk(d) if isinstance(x, ast.Attribute)} | {(dotted(x.func) or "?").split(".")[-1] for x in ast.walk(d) if isinstance(x, ast.Call)})) or type(d).__name__
+            if not is_ir:
+                gattrs = sorted({x.attr for g, pol in guards(cfg, r.id, dom) if g.kind == "test" and c0.id in dom[g.id] for x in ast.walk(g.ast)
+                                 if isinstance(x, ast.Attribute) and x.attr.startswith("_")})
+                origin += "|when=" + ",".join(gattrs)
+            sub = f"{ps.module.relpath}:_parse_schema return of {'the constructed IR' if is_ir else origin} after construction"
+            if is_ir:
                 rep.ok("R2.1", sub, "returns the object that carries the parsed structure", ps.loc(r.ast))
             else:
-                rep.violation("R2.1", sub, f"{ps.fq}|discards-parsed|{v}",
-                              f"after the schema has been fully parsed into `schema_ir` this path returns `{v}` instead: a cycle placeholder stored under the "
+                rep.violation("R2.1", sub, f"{ps.fq}|discards-parsed|{origin}",
+                              f"after the schema has been fully parsed into `{ir_var}` this path returns `{v}` instead: a cycle placeholder stored under the "
                               "schema's own name shadows the finished definition and the model ends up without fields (order- and name-dependent)", ps.loc(r.ast))
 
     # ---------------------------------------------------------------- R2.7 tracker balance (precondition of field fidelity)
@@ -58,93 +86,103 @@ def run(repo: Repo, rep: Report, tier: str) -> None:
     # ---------------------------------------------------------------- R2.2 name content
     ucd = repo.module("core.parsing.unified_cycle_detection")
     ucc = ucd.func("unified_cycle_check")
-    n_name_tests = 0
-    for n in own_nodes(ucc.node):
-        bad = None
-        # "<lit>" in schema_name / name.startswith(...) / name.endswith(...) / "<lit>" in cycle_path_str
-        if isinstance(n, ast.Compare) and isinstance(n.ops[0], (ast.In, ast.NotIn)) and const_str(n.left) is not None:
-            tgt = norm(n.comparators[0])
-            if "name" in tgt or "path_str" in tgt or "cycle_path[" in tgt:
-                bad = n
-        if isinstance(n, ast.Call) and isinstance(n.func, ast.Attribute) and n.func.attr in ("startswith", "endswith", "find", "index") \
-                and ("name" in norm(n.func.value)):
-            bad = n
-        if bad is None:
-            continue
-        n_name_tests += 1
-        # does it feed a storage decision?
-        st = _enclosing_assign(bad)
-        var = norm(st.targets[0]) if st is not None else "?"
-        rep.violation("R2.2", f"{ucd.relpath}:unified_cycle_check `{norm(bad)[:60]}`", f"{ucc.fq}|name-content|{var}|{norm(bad)[:50]}",
-                      f"a cycle-handling decision (`{var}`) depends on the *text* of schema names (`{norm(bad)[:60]}`): whether a placeholder is stored over a "
-                      "schema's own entry changes when schemas are renamed (e.g. a schema whose name is a prefix of another, or contains 'Item')", ucc.loc(bad))
-    if n_name_tests == 0:
-        rep.ok("R2.2", f"{ucd.relpath}:unified_cycle_check", "schema names are only compared for equality / membership", ucc.loc())
-    # the cycle-marking block of _parse_schema
-    for n in own_nodes(ps.node):
-        if isinstance(n, ast.Compare) and isinstance(n.ops[0], ast.In) and const_str(n.left) is not None and "cycle_path" in norm(n.comparators[0]):
-            st = _enclosing_assign(n)
-            var = norm(st.targets[0]) if st is not None else "?"
-            rep.violation("R2.2", f"{ps.module.relpath}:_parse_schema `{norm(n)[:60]}`", f"{ps.fq}|name-content|{var}|{norm(n)[:50]}",
-                          f"marking a schema as circular (`{var}`) depends on whether a name in the cycle path contains {norm(n.left)}", ps.loc(n))
+    n_found = 0
+    for fn in (ucc, ps):
+        n_found += _name_content(fn, rep)
+    rep.count("R2.2:name_content_tests", n_found)
 
     # ---------------------------------------------------------------- R2.3 (a) _parse_properties
     pp = repo.func(f"{SP}:_parse_properties")
     cfg2 = CFG(pp.node)
-    loops = [n for n in cfg2.nodes if n.kind == "iter" and "properties_node.items()" in norm(n.ast)]
-    rep.require(len(loops) == 1, f"R2.3: expected one loop over properties_node.items(), found {len(loops)}")
-    if loops:
-        h = loops[0]
-        assigns = {n.id for n in cfg2.nodes if n.kind == "stmt" and isinstance(n.ast, ast.Assign) and isinstance(n.ast.targets[0], ast.Subscript)
-                   and norm(n.ast.targets[0].value) == "parsed_props" and norm(n.ast.targets[0].slice) == "prop_name"}
-        conts = [n for n in cfg2.nodes if n.kind == "stmt" and isinstance(n.ast, ast.Continue) and not n.copy]
-        allowed = 0
-        for c in conts:
-            gs = [norm(g.ast) for g, p in guards(cfg2, c.id) if p is True]
+    QL = Locals(pp.node)
+    loops_ast = [n for n in own_nodes(pp.node) if isinstance(n, ast.For) and isinstance(n.target, ast.Tuple) and len(n.target.elts) == 2
+                 and match("VAR_p.items()", QL.inline(n.iter, stop=tuple(QL.params))) is not None
+                 and QL.is_param(match("VAR_p.items()", QL.inline(n.iter, stop=tuple(QL.params)))["VAR_p"])]  # type: ignore[index]
+    rep.require(len(loops_ast) == 1, f"R2.3: expected one loop over <properties parameter>.items() in _parse_properties, found {len(loops_ast)}")
+    if loops_ast:
+        lp = loops_ast[0]
+        key = lp.target.elts[0].id if isinstance(lp.target.elts[0], ast.Name) else None  # type: ignore[attr-defined]
+        h = [n for n in cfg2.nodes if n.kind == "iter" and n.stmt is lp][0]
+
+        def is_key(e: ast.AST) -> bool:
+            return isinstance(e, ast.Name) and QL.root(e.id) == key
+
+        assign_nodes = [n for n in cfg2.nodes if n.kind == "stmt" and isinstance(n.ast, ast.Assign) and isinstance(n.ast.targets[0], ast.Subscript)
+                        and isinstance(n.ast.targets[0].value, ast.Name) and is_key(n.ast.targets[0].slice)]
+        dict_vars = {QL.root(n.ast.targets[0].value.id) for n in assign_nodes}
+        rep.require(len(dict_vars) == 1, f"R2.3: expected one result dict assigned per key in _parse_properties, found {sorted(dict_vars)}")
+        dvar = sorted(dict_vars)[0] if dict_vars else None
+        assigns = {n.id for n in assign_nodes}
+        conts = [n for n in cfg2.nodes if n.kind == "stmt" and isinstance(n.ast, ast.Continue) and not n.copy and any(a is lp for a in _ancestors(n.ast, pp.node))]
+        for i, c in enumerate(conts):
+            gs = [g.ast for g, p in guards(cfg2, c.id) if p is True and g.kind == "test"]
             why = None
-            if any("isinstance(prop_name, str)" in g for g in gs):
-                why = "invalid (non-string / empty) key"
-            elif any("prop_name in parsed_props" in g for g in gs):
-                why = "already merged from allOf"
-            sub = f"{pp.module.relpath}:_parse_properties `continue` under {gs[-1][:50] if gs else '?'}"
+            for g in gs:
+                if any(isinstance(x, ast.Call) and dotted(x.func) == "isinstance" and len(x.args) == 2 and is_key(x.args[0]) and norm(x.args[1]) == "str" for x in ast.walk(g)):
+                    why = "invalid (non-string / empty) key"
+                for x in ast.walk(g):
+                    if isinstance(x, ast.Compare) and len(x.ops) == 1 and isinstance(x.ops[0], ast.In) and is_key(x.left) and isinstance(x.comparators[0], ast.Name) \
+                            and QL.root(x.comparators[0].id) == dvar:
+                        why = why or "already merged from allOf"
+            kind = "key-type" if why and why.startswith("invalid") else "already-present" if why else f"other#{i + 1}"
+            sub = f"{pp.module.relpath}:_parse_properties skip ({kind})"
             if why:
-                allowed += 1
                 rep.ok("R2.3", sub, f"enumerated skip: {why}", pp.loc(c.ast))
             else:
-                rep.violation("R2.3", sub, f"{pp.fq}|property-skipped|{gs[-1][:60] if gs else ''}", "a declared property is skipped under a condition that is not one of the two enumerated ones", pp.loc(c.ast))
-        # every other path through the body assigns parsed_props[prop_name]
+                rep.violation("R2.3", sub, f"{pp.fq}|property-skipped|{kind}", f"a declared property is skipped under `{norm(gs[-1])[:60] if gs else '?'}`, which is not one of the two enumerated conditions", pp.loc(c.ast))
         blocked = assigns | {c.id for c in conts}
         w = None
         for m, lab in cfg2.succ[h.id]:
             if lab == "loop" and m not in blocked:
                 w = w or cfg2.must_pass(m, blocked, {h.id, cfg2.exit})
         if assigns and w is None:
-            rep.ok("R2.3", f"{pp.module.relpath}:_parse_properties every key assigned", "every path through one iteration assigns parsed_props[prop_name] (or takes an enumerated skip)", pp.loc())
+            rep.ok("R2.3", f"{pp.module.relpath}:_parse_properties every key assigned", f"every path through one iteration assigns {dvar}[{key}] (or takes an enumerated skip)", pp.loc())
         else:
-            rep.violation("R2.3", f"{pp.module.relpath}:_parse_properties every key assigned", f"{pp.fq}|not-assigned|{cfg2.describe_path(w or [])}",
+            rep.violation("R2.3", f"{pp.module.relpath}:_parse_properties every key assigned", f"{pp.fq}|not-assigned",
                           f"an iteration can end without assigning the property ({cfg2.describe_path(w or [])})", pp.loc())
 
     # ---------------------------------------------------------------- R2.3 (b) allOf merge
     ao = repo.func("core.parsing.keywords.all_of_parser:_process_all_of")
     cfg3 = CFG(ao.node)
-    loops = [n for n in cfg3.nodes if n.kind == "iter" and norm(n.ast) == "node['allOf']"]
-    rep.require(len(loops) == 1, f"R2.3: expected one loop over node['allOf'], found {len(loops)}")
+    AL = Locals(ao.node)
+
+    def over_allof(it: ast.AST) -> bool:
+        it = AL.inline(it, stop=tuple(AL.params))
+        return any((isinstance(x, ast.Subscript) and const_str(x.slice) == "allOf") or (
+            isinstance(x, ast.Call) and isinstance(x.func, ast.Attribute) and x.func.attr == "get" and x.args and const_str(x.args[0]) == "allOf") for x in ast.walk(it))
+
+    loops = [n for n in cfg3.nodes if n.kind == "iter" and isinstance(n.stmt, ast.For) and over_allof(n.stmt.iter)]
+    rep.require(len(loops) == 1, f"R2.3: expected one loop over the allOf members, found {len(loops)}")
     if loops:
         h = loops[0]
-        req_upd = {n.id for n in cfg3.nodes if n.kind == "stmt" and n.ast is not None and any(
-            isinstance(c.func, ast.Attribute) and c.func.attr == "update" and norm(c.func.value) == "merged_required" for c in calls_in(n.ast))}
-        prop_merge = {n.id for n in cfg3.nodes if n.kind == "stmt" and isinstance(n.ast, ast.Assign) and isinstance(n.ast.targets[0], ast.Subscript)
-                      and norm(n.ast.targets[0].value) == "merged_properties"}
-        for label, nodes, test_kw in (("required", req_upd, "required"), ("properties", prop_merge, "properties")):
-            # allowed bypass: the false edge of `if sub_schema_ir.<kw>:` (nothing to merge)
-            tests = {n.id for n in cfg3.nodes if n.kind == "test" and norm(n.ast) in (f"sub_schema_ir.{test_kw}",) }
+        body_ids = {id(x) for x in ast.walk(h.stmt)}
+        # the member IR: the name whose .required / .properties are read inside the loop
+        members = {x.value.id for x in ast.walk(h.stmt) if isinstance(x, ast.Attribute) and x.attr in ("required", "properties") and isinstance(x.value, ast.Name)}
+        rep.require(len(members) == 1, f"R2.3: cannot identify the parsed allOf member variable ({sorted(members)})")
+        mem = sorted(members)[0] if members else ""
+
+        def reads(n: ast.AST, attr: str) -> bool:
+            return any(isinstance(x, ast.Attribute) and x.attr == attr and isinstance(x.value, ast.Name) and x.value.id == mem for x in ast.walk(n))
+
+        req_upd = {n.id for n in cfg3.nodes if n.kind == "stmt" and n.ast is not None and id(n.ast) in body_ids and not isinstance(n.ast, (ast.If, ast.For))
+                   and reads(n.ast, "required") and (calls_in(n.ast) or isinstance(n.ast, (ast.Assign, ast.AugAssign)))}
+        inner_loops = [x for x in ast.walk(h.stmt) if isinstance(x, ast.For) and x is not h.stmt and reads(x.iter, "properties")]
+        inner_ids = {id(y) for x in inner_loops for y in ast.walk(x)}
+        prop_merge = {n.id for n in cfg3.nodes if n.kind == "stmt" and n.ast is not None and id(n.ast) in body_ids and (
+            (isinstance(n.ast, ast.Assign) and isinstance(n.ast.targets[0], ast.Subscript) and id(n.ast) in inner_ids)
+            or (reads(n.ast, "properties") and any(isinstance(c.func, ast.Attribute) and c.func.attr in ("update", "setdefault") for c in calls_in(n.ast))))}
+        prop_dicts = {n.ast.targets[0].value.id for n in cfg3.nodes if n.id in prop_merge and isinstance(n.ast, ast.Assign) and isinstance(n.ast.targets[0].value, ast.Name)}
+        for label, nodes in (("required", req_upd), ("properties", prop_merge)):
+            # allowed bypass: the false edge of `if <member>.<kw>:` (nothing to merge)
+            tests = {n.id for n in cfg3.nodes if n.kind == "test" and isinstance(n.ast, ast.Attribute) and n.ast.attr == label and reads(n.ast, label)}
             saved = {t: list(cfg3.succ[t]) for t in tests}
             for t in tests:
                 cfg3.succ[t] = [(m, lab) for m, lab in cfg3.succ[t] if lab != "false"]
-            # inner loops over properties: allow their own `done` edge
-            inner_iters = {n.id for n in cfg3.nodes if n.kind == "iter" and n.id != h.id and "sub_schema_ir.properties" in norm(n.ast)}
+            inner_iters = {n.id for n in cfg3.nodes if n.kind == "iter" and n.id != h.id and n.stmt in inner_loops}
             saved2 = {t: list(cfg3.succ[t]) for t in inner_iters}
-            skip_tests = {n.id for n in cfg3.nodes if n.kind == "test" and "not in merged_properties" in norm(n.ast)}
+            # "first definition wins": `if <key> not in <merged properties>` may skip the assignment
+            skip_tests = {n.id for n in cfg3.nodes if n.kind == "test" and id(n.ast) in inner_ids and isinstance(n.ast, ast.Compare) and len(n.ast.ops) == 1
+                          and isinstance(n.ast.ops[0], ast.NotIn) and isinstance(n.ast.comparators[0], ast.Name) and n.ast.comparators[0].id in prop_dicts}
             saved3 = {t: list(cfg3.succ[t]) for t in skip_tests}
             if label == "properties":
                 for t in inner_iters:
@@ -161,59 +199,159 @@ def run(repo: Repo, rep: Report, tier: str) -> None:
             if nodes and w is None:
                 rep.ok("R2.3", sub, f"every path through one allOf member merges its {label} (only bypass: the member has none)", ao.loc())
             else:
-                rep.violation("R2.3", sub, f"{ao.fq}|allof-{label}-skipped|{cfg3.describe_path(w or [])}",
+                rep.violation("R2.3", sub, f"{ao.fq}|allof-{label}-skipped",
                               f"an allOf member can be passed over without merging its `{label}` ({cfg3.describe_path(w or [])}): e.g. a member that only "
                               "tightens `required` no longer makes the inherited fields required", ao.loc())
 
     # ---------------------------------------------------------------- R2.3 (c) / R2.4 DataclassGenerator
     dg = repo.func("visit.model.dataclass_generator:DataclassGenerator.generate")
-    lp = [n for n in own_nodes(dg.node) if isinstance(n, ast.For) and "sorted_props" in norm(n.iter)]
+    DL = Locals(dg.node)
+    lp = property_loop(dg, DL)
     rep.require(len(lp) == 1, "R2.4: property loop of DataclassGenerator.generate not found")
     for loop in lp:
+        key = loop.target.elts[0].id if isinstance(loop.target.elts[0], ast.Name) else None  # type: ignore[attr-defined]
         skips = [n for n in ast.walk(loop) if isinstance(n, (ast.Continue, ast.Break))]
         sub = f"{dg.module.relpath}:DataclassGenerator.generate property loop"
         if not skips:
             rep.ok("R2.3", sub, "no continue/break: one field per declared property", dg.loc(loop))
         else:
             rep.violation("R2.3", sub, f"{dg.fq}|loop-skip|{len(skips)}", "the property loop can skip a property", dg.loc(skips[0]))
-        req = [n for n in ast.walk(loop) if isinstance(n, ast.Assign) and norm(n.targets[0]) == "is_required"]
-        okr = len(req) == 1 and norm(req[0].value) == "prop_name in schema.required"
-        defaults = [n for n in ast.walk(loop) if isinstance(n, ast.Assign) and norm(n.targets[0]) == "default_expr" and not (isinstance(n.value, ast.Constant) and n.value.value is None)]
-        guarded = all(any(isinstance(a, ast.If) and norm(a.test) == "not is_required" for a in _ancestors(d, loop)) for d in defaults)
+        # required-ness: the variable(s) bound to `<key> in <schema>.required`
+        req = [n for n in ast.walk(loop) if isinstance(n, ast.Assign) and isinstance(n.targets[0], ast.Name) and any(
+            isinstance(x, ast.Attribute) and x.attr == "required" for x in ast.walk(n.value))]
+        okr = len(req) == 1 and (m0 := match("VAR_k in ANY_s.required", req[0].value)) is not None and DL.root(m0["VAR_k"]) == key
+        rvar = req[0].targets[0].id if req else None
+        # the default expression = third component of the tuples appended to the list handed to render_dataclass(fields=...)
+        dvars = set()
+        for c in calls_in(loop):
+            if isinstance(c.func, ast.Attribute) and c.func.attr == "append" and c.args and isinstance(c.args[0], ast.Tuple) and len(c.args[0].elts) == 4 \
+                    and isinstance(c.args[0].elts[2], ast.Name):
+                dvars.add(c.args[0].elts[2].id)
+        defaults = [n for n in ast.walk(loop) if isinstance(n, ast.Assign) and isinstance(n.targets[0], ast.Name) and n.targets[0].id in dvars
+                    and not (isinstance(n.value, ast.Constant) and n.value.value is None)]
+
+        def under_not_required(d: ast.AST) -> bool:
+            child = d
+            for a in _ancestors(d, loop):
+                if isinstance(a, ast.If):
+                    in_body = any(child is b or any(child is y for y in ast.walk(b)) for b in a.body)
+                    t = a.test
+                    if in_body and isinstance(t, ast.UnaryOp) and isinstance(t.op, ast.Not) and isinstance(t.operand, ast.Name) and t.operand.id == rvar:
+                        return True
+                    if not in_body and isinstance(t, ast.Name) and t.id == rvar:
+                        return True
+                child = a
+            return False
+
+        guarded = all(under_not_required(d) for d in defaults)
         sub = f"{dg.module.relpath}:DataclassGenerator.generate required-ness"
+        if not dvars:
+            raise AnalysisError("R2.4: cannot identify the default-expression component of the field tuples")
         if okr and defaults and guarded:
-            rep.ok("R2.4", sub, "`is_required = prop_name in schema.required`; a default is computed only under `not is_required`", dg.loc(req[0]))
+            rep.ok("R2.4", sub, f"`{rvar} = {key} in <schema>.required`; a default is computed only where that is false", dg.loc(req[0]))
         else:
-            rep.violation("R2.4", sub, f"{dg.fq}|requiredness|{[norm(r.value) for r in req]}|guarded={guarded}",
-                          "required-ness is not taken solely from schema.required / defaults are assigned to required fields", dg.loc(loop))
-    sortkey = [n for n in own_nodes(dg.node) if isinstance(n, ast.Assign) and norm(n.targets[0]) == "sorted_props"]
-    if sortkey and "schema.properties.items()" in full(sortkey[0].value) and "if " not in full(sortkey[0].value):
-        rep.ok("R2.3", f"{dg.module.relpath}:DataclassGenerator.generate sorted_props", "all items of schema.properties (sorted, unfiltered)", dg.loc(sortkey[0]))
-    else:
-        rep.violation("R2.3", f"{dg.module.relpath}:DataclassGenerator.generate sorted_props", f"{dg.fq}|props-filtered", "the property list is filtered before fields are generated", dg.loc())
+            rep.violation("R2.4", sub, f"{dg.fq}|requiredness|from-required-only={bool(okr)}|guarded={guarded}",
+                          f"required-ness is not taken solely from schema.required ({[norm(r.value) for r in req]}) / defaults are assigned to required fields", dg.loc(loop))
+        it = DL.inline(loop.iter)
+        filtered = any(isinstance(x, ast.comprehension) and x.ifs for x in ast.walk(it)) or any(isinstance(x, ast.Call) and dotted(x.func) == "filter" for x in ast.walk(it)) \
+            or any(isinstance(x, ast.Subscript) and isinstance(x.slice, ast.Slice) for x in ast.walk(it))
+        if not filtered:
+            rep.ok("R2.3", f"{dg.module.relpath}:DataclassGenerator.generate property list", "all items of schema.properties (sorted, unfiltered)", dg.loc(loop))
+        else:
+            rep.violation("R2.3", f"{dg.module.relpath}:DataclassGenerator.generate property list", f"{dg.fq}|props-filtered", "the property list is filtered before fields are generated", dg.loc(loop))
 
     # ---------------------------------------------------------------- R2.6 registration on the way out
-    reg = {n.id for n in cfg.nodes if n.kind == "stmt" and isinstance(n.ast, ast.Assign) and isinstance(n.ast.targets[0], ast.Subscript)
-           and norm(n.ast.targets[0].value) == "context.parsed_schemas" and norm(n.ast.targets[0].slice) == "registration_key"}
-    final_ret = [n for n in cfg.nodes if isinstance(n.ast, ast.Return) and not n.copy and n.ast.value is not None and norm(n.ast.value) == "schema_ir"]
+    def is_ir(e: Optional[ast.AST]) -> bool:
+        return isinstance(e, ast.Name) and ir_var is not None and PL.root(e.id) == ir_var
+
+    reg_nodes = [n for n in cfg.nodes if n.kind == "stmt" and isinstance(n.ast, ast.Assign) and isinstance(n.ast.targets[0], ast.Subscript) and not n.copy
+                 and isinstance(n.ast.targets[0].value, ast.Attribute) and n.ast.targets[0].value.attr == "parsed_schemas" and is_ir(n.ast.value)]
+    reg = {n.id for n in reg_nodes}
+    final_ret = [n for n in cfg.nodes if isinstance(n.ast, ast.Return) and not n.copy and is_ir(n.ast.value)]
     rep.require(bool(reg) and bool(final_ret), "R2.6: registration statement / final return not found in _parse_schema")
     if reg and final_ret and ctor:
-        tests = {n.id for n in cfg.nodes if n.kind == "test" and norm(n.ast).startswith("should_register")}
+        # the condition under which registration happens: the positive guards of the registration statement inside the function's main flow
+        gtests = [g for g, p in guards(cfg, reg_nodes[0].id, dom) if g.kind == "test" and p is True and ctor[0].id in dom[g.id]]
+        gtests = [g for g in gtests if g.ast.lineno > ctor[0].ast.lineno]
+        cond_tests = [g for g in gtests if not any(isinstance(x, ast.Compare) and isinstance(x.ops[0], (ast.In, ast.IsNot, ast.Is)) for x in ast.walk(g.ast))]
+        tests = {g.id for g in cond_tests}
         saved = {t: list(cfg.succ[t]) for t in tests}
         for t in tests:
             cfg.succ[t] = [(m, lab) for m, lab in cfg.succ[t] if lab != "false"]
-        w = cfg.must_pass(ctor[0].id, reg, {final_ret[0].id})
+        w = cfg.must_pass(ctor[0].id, reg, {final_ret[-1].id})
         for t, v in saved.items():
             cfg.succ[t] = v
-        sr = [n for n in own_nodes(ps.node) if isinstance(n, ast.Assign) and norm(n.targets[0]) == "should_register"]
-        conj = [norm(v) for v in sr[0].value.values] if sr and isinstance(sr[0].value, ast.BoolOp) else []
-        expected = {"schema_name", "not schema_ir._from_unresolved_ref", "not schema_ir._max_depth_exceeded_marker", "not is_synthetic_primitive"}
+        conj: List[ast.AST] = []
+        for g in cond_tests:
+            for c in _conj(g.ast):
+                ci = PL.inline(c, depth=1, stop=tuple(PL.params) + (ir_var or "",))
+                conj += _conj(ci)
+        extra = []
+        for c in conj:
+            if isinstance(c, ast.Name) and PL.is_param(c.id):
+                continue  # the schema has a name
+            if isinstance(c, ast.UnaryOp) and isinstance(c.op, ast.Not):
+                o = c.operand
+                if isinstance(o, ast.Attribute) and is_ir(o.value) and o.attr in PLACEHOLDER_FLAGS:
+                    continue  # placeholders are not definitions
+                oi = PL.inline(o, stop=tuple(PL.params) + (ir_var or "",))
+                # an exception that can only hold for schemas that are NOT declared in components/schemas (inline primitives)
+                if any(isinstance(x, ast.UnaryOp) and isinstance(x.op, ast.Not) and any(isinstance(y, ast.Attribute) and y.attr == "raw_spec_schemas" for y in ast.walk(x.operand))
+                       for x in _conj(oi)):
+                    continue
+            extra.append(norm(c))
         sub = f"{ps.module.relpath}:_parse_schema registration"
-        if w is None and set(conj) == expected:
-            rep.ok("R2.6", sub, f"every path from construction to `return schema_ir` registers the schema unless {sorted(expected)} fails", ps.loc())
+        if w is None and not extra and conj:
+            rep.ok("R2.6", sub, "every path from construction to the final return registers the schema unless it is unnamed, a placeholder, or an inline primitive "
+                   "that is not declared in components/schemas", ps.loc())
         else:
-            rep.violation("R2.6", sub, f"{ps.fq}|registration|{sorted(set(conj) ^ expected)}|{cfg.describe_path(w or [])}",
-                          f"a named schema can be returned unregistered (condition differs by {sorted(set(conj) ^ expected)}; bypass path {cfg.describe_path(w or [])})", ps.loc())
+            rep.violation("R2.6", sub, f"{ps.fq}|registration|extra={len(extra)}|bypass={w is not None}",
+                          f"a named, declared schema can be returned unregistered (additional condition(s) {extra}; bypass path {cfg.describe_path(w or [])})", ps.loc())
+
+
+def _name_content(fn: Function, rep: Report) -> int:
+    """R2.2: substring / prefix / suffix tests on schema names (str parameters, members of schema_stack / cycle_path, strings joined from them)."""
+    L = Locals(fn.node)
+    str_params = set()
+    a = fn.node.args  # type: ignore[attr-defined]
+    for arg in a.posonlyargs + a.args + a.kwonlyargs:
+        if arg.annotation is not None and "str" in norm(arg.annotation) and "Mapping" not in norm(arg.annotation) and "dict" not in norm(arg.annotation).lower():
+            str_params.add(arg.arg)
+
+    def name_derived(e: ast.AST, depth: int = 0) -> bool:
+        ei = L.inline(e, stop=tuple(L.params))
+        for x in ast.walk(ei):
+            if isinstance(x, ast.Name) and x.id in str_params:
+                return True
+            if isinstance(x, ast.Attribute) and x.attr in ("schema_stack", "cycle_path"):
+                return True
+            if isinstance(x, ast.Name) and depth < 3:
+                for kind, v, st in L.defs.get(x.id, []):
+                    if kind.startswith("for") and v is not None and name_derived(v, depth + 1):
+                        return True
+        return False
+
+    n = 0
+    for node in own_nodes(fn.node, nested=True) if "nested" in own_nodes.__code__.co_varnames else own_nodes(fn.node):
+        kind = lit = None
+        if isinstance(node, ast.Compare) and len(node.ops) == 1 and isinstance(node.ops[0], (ast.In, ast.NotIn)) and const_str(node.left) is not None \
+                and name_derived(node.comparators[0]):
+            kind, lit = "in", const_str(node.left)
+        elif isinstance(node, ast.Call) and isinstance(node.func, ast.Attribute) and node.func.attr in ("startswith", "endswith", "find", "index", "rfind") \
+                and name_derived(node.func.value) and node.args:
+            kind, lit = node.func.attr, const_str(node.args[0]) if const_str(node.args[0]) is not None else "<name>"
+        if kind is None:
+            continue
+        n += 1
+        st = _enclosing_assign(node)
+        var = norm(st.targets[0]) if st is not None else "a branch"
+        rep.violation("R2.2", f"{fn.module.relpath}:{fn.name} name-content test {kind} {lit!r}", f"{fn.fq}|name-content|{kind}|{lit}",
+                      f"a cycle-handling decision (`{var}`) depends on the *text* of schema names (`{norm(node)[:60]}`): whether a placeholder is stored over a "
+                      "schema's own entry / a schema is marked circular changes when schemas are renamed (e.g. a schema whose name is a prefix of another, or "
+                      f"contains {lit!r})", fn.loc(node))
+    if n == 0:
+        rep.ok("R2.2", f"{fn.module.relpath}:{fn.name}", "schema names are only compared for equality / membership", fn.loc())
+    return n
 
 
 def _enclosing_assign(n: ast.AST) -> Optional[ast.Assign]:
